@@ -61,6 +61,7 @@ struct IFamily {
   virtual void update(Env&, void*, uint64_t seed, unsigned n) const = 0;
   virtual bool merge_ref(Env&, void* d, const void* s) const = 0;
   virtual bool merge_move(Env&, void* d, void* s) const = 0;
+  virtual bool merge_lval(Env&, void* d, void* s) const = 0;   // the source as a NON-const lvalue (forwarding overloads deduce another type than for const&)
   virtual bool reset(void*) const = 0;
   virtual void* serde(Env&, const void*, uint64_t mode, int reg) const = 0;
   virtual std::string observe(const void*) const = 0;
@@ -97,6 +98,7 @@ struct FamilyImpl : IFamily {
   void update(Env& e, void* p, uint64_t seed, unsigned n) const override { F::update(e, *o(p), seed, n); }
   bool merge_ref(Env& e, void* d, const void* s) const override { return F::merge_ref(e, *o(d), *o(s)); }
   bool merge_move(Env& e, void* d, void* s) const override { return F::merge_move(e, *o(d), std::move(*o(s))); }
+  bool merge_lval(Env& e, void* d, void* s) const override { return F::merge_ref(e, *o(d), *o(s)); }
   bool reset(void* p) const override { return F::reset(*o(p)); }
   void* serde(Env& e, const void* s, uint64_t mode, int reg) const override { return F::serde(e, *o(s), mode, reg); }
   std::string observe(const void* p) const override { std::ostringstream os; F::observe(*o(p), os); return os.str(); }
@@ -268,11 +270,14 @@ struct History {
     if (!by_move) {
       reseed(2);
       bool ok = false;
-      if (!guarded([&] { ok = fam.merge_ref(env, s[d].p, s[src].p); }, d)) return;
+      // alternately through a const reference and through a non-const lvalue: either way the source is only read
+      // (verify() below checks that it still observes what it observed before)
+      const bool lval = ((d ^ src) & 1) != 0;
+      if (!guarded([&] { ok = lval ? fam.merge_lval(env, s[d].p, s[src].p) : fam.merge_ref(env, s[d].p, s[src].p); }, d)) return;
       if (!ok) return;
       mutated(d);
-      verify("merge by reference", d);
-      vf::label("op:merge-ref");
+      verify(lval ? "merge of a non-const lvalue" : "merge by reference", d);
+      vf::label(lval ? "op:merge-nonconst-lvalue" : "op:merge-ref");
       return;
     }
     // by move: the result must be what the merge by reference of an identical copy gives (same internal randomness)
